@@ -93,7 +93,8 @@ class Finders:
     if gfa_line.record_type == "L":
       return self._search_link(gfa_line.oriented_from, gfa_line.oriented_to,
                                gfa_line.alignment)
-    elif gfa_line.record_type in self.RECORDS_WITH_NAME:
+    elif gfa_line.record_type in self.RECORDS_WITH_NAME and \
+        gfa_line.__class__.NAME_FIELD is not None:
       return self.line(gfa_line.name)
     else:
       return None
